@@ -511,6 +511,34 @@ def check_factories(ctx: Ctx):
         ctx.violation("C13:json_factory:Distribution", f"Distribution factory evaluates to {got} expected {want}", {"json": js})
     if d.x is not dic["x"]:
         ctx.violation("C13:json_factory:Distribution-identity", "x of the distribution is not the registered object", {"json": js})
+    # a type name denotes one class whatever was loaded before: short (registered) names after full-path look-ups of
+    # classes with the same final component
+    from torchtree.core import utils as U
+    before = dict(U.REGISTERED_CLASSES)
+    for full in ("torch.distributions.Normal", "torch.distributions.LogNormal", "torch.distributions.MultivariateNormal", "torch.distributions.Gamma",
+                 "torchtree.core.parameter.Parameter", "torchtree.distributions.distributions.Distribution"):
+        try:
+            U.get_class(full)
+        except Exception:
+            pass
+    ctx.add("evaluations")
+    ctx.distinct(("factory", "type-names"))
+    rebound = sorted(k for k, v in before.items() if U.REGISTERED_CLASSES.get(k) is not v)
+    if rebound:
+        ctx.violation("C13:type-name-rebound", f"after full-path look-ups the registered short names {rebound[:5]} denote other classes: "
+                      f"{[str(U.REGISTERED_CLASSES.get(k)) for k in rebound[:3]]}", {"names": rebound})
+    for short in ("Normal",):
+        if short in before:
+            js2 = {"id": "dn", "type": "Distribution", "distribution": short, "x": Parameter.json_factory("xn", tensor=[0.3, 1.5]),
+                   "parameters": {"loc": Parameter.json_factory("ln", tensor=[0.1]), "precision": Parameter.json_factory("pn", tensor=[4.0])}}
+            try:
+                got2 = float(process_object(js2, {})().sum())
+                cls = torch.distributions.Normal if short == "Normal" else torch.distributions.LogNormal
+                want2 = float(cls(torch.tensor([0.1]), torch.tensor([0.5])).log_prob(torch.tensor([0.3, 1.5])).sum())
+                if abs(got2 - want2) > 1e-12:
+                    ctx.violation(f"C13:short-name:{short}", f"'{short}' with a precision evaluates to {got2}, expected {want2}", {"json": js2})
+            except Exception as e:
+                ctx.violation(f"C13:short-name:{short}", f"'{short}' with a precision does not load / evaluate after full-path look-ups: {type(e).__name__}: {str(e)[:100]}", {"json": js2})
 
 
 def run(ctx: Ctx):
